@@ -25,6 +25,24 @@ OUT = os.environ.get("GSIM_OUT", VERIF)  # evidence/ and replays/ go here (scrat
 FORMAT = 1
 
 
+def _json_default(o):
+    """numpy scalars / arrays that found their way into a case or an event trace."""
+    try:
+        import numpy as np
+
+        if isinstance(o, np.integer):
+            return int(o)
+        if isinstance(o, np.floating):
+            return float(o)
+        if isinstance(o, np.bool_):
+            return bool(o)
+        if isinstance(o, np.ndarray):
+            return o.tolist()
+    except Exception:  # pragma: no cover
+        pass
+    return str(o)
+
+
 def repo_rev():
     try:
         head = subprocess.run(["git", "-C", REPO, "rev-parse", "HEAD"], capture_output=True, text=True, timeout=20).stdout.strip()
@@ -480,7 +498,7 @@ def run_check(engine_cls, tier, base_seed, jobs=None, runs=None, budget_s=None, 
         }
         path = os.path.join(OUT, "replays", engine.PROPERTY, "%d-%d.json" % (r["seed"], n_rep))
         with open(path, "w") as f:
-            json.dump(rec, f, indent=1, sort_keys=True)
+            json.dump(rec, f, indent=1, sort_keys=True, default=_json_default)
         ok, out = _fresh_replay(path)
         if ok:
             reported.append((path, viol, len(rs)))
@@ -536,10 +554,10 @@ def run_check(engine_cls, tier, base_seed, jobs=None, runs=None, budget_s=None, 
     }
     os.makedirs(os.path.join(OUT, "evidence"), exist_ok=True)
     with open(os.path.join(OUT, "evidence", engine.PROPERTY + ".json"), "w") as f:
-        json.dump(evidence, f, indent=1, sort_keys=True)
+        json.dump(evidence, f, indent=1, sort_keys=True, default=_json_default)
     # a per-tier copy, so that a quick run does not erase what the last thorough run covered
     with open(os.path.join(OUT, "evidence", "%s.%s.json" % (engine.PROPERTY, tier)), "w") as f:
-        json.dump(evidence, f, indent=1, sort_keys=True)
+        json.dump(evidence, f, indent=1, sort_keys=True, default=_json_default)
 
     if not quiet:
         print("%s tier=%s seed=%d: %d runs (%d skipped on budget) in %.1fs, %d distinct non-trivial signatures, "
